@@ -750,7 +750,7 @@ def run(ctx):
                 mp = sorted(set(t for t in m["printed"].split(";") if t))
                 if ip != mp:
                     viol.append((dict(kind="currency-message"), "stderr at import %r, model %r (currency %r)" % (ip, mp, s["cur"]), False))
-        if m and "crash" in m:
+        if m and "crash" in m and not (crashed and crashed[1][0] == m["crash"]):
             viol.append((dict(kind="model-crash", exception=m["crash"]), "the model predicts a crash (%s) — contradicts C19_starts" % m["crash"], False))
         key = "crash" if crashed else ("ok" if not viol else "differs")
         hist_outcome[key] = hist_outcome.get(key, 0) + 1
